@@ -1488,6 +1488,67 @@ def c25_int_string_pool(fi: int, si: int, bi: int) -> bool:
 _DETAIL_INT_STRING = lambda fi, si, bi: {"filter": IS_FILTERS[fi], "string": IS_POOL[si], "other operand": IS_OTHER[bi],
                                                    "rendered with the string / with the int": int_string_case(fi, si, bi)}
 
+# ---- binary math filters over a pool of ints, dyadic floats and numeric strings: the rendered text is exactly the text of
+# the Python result on the converted operands (so an int result never turns into a float, or the other way round)
+ME_POOL = [0, 7, -7, 2.5, -0.5, "3", "-3", "2.5", "1e3", 10 ** 20, 0.25, " 4", "+2"]
+ME_FILTERS = ["plus", "minus", "times", "modulo", "divided_by", "at_least", "at_most"]
+_ME_T = {f: _IS_ENV.from_string("{{ a | %s: b }}" % f) for f in ME_FILTERS}
+
+
+def _me_conv(v):
+    if isinstance(v, str):
+        try:
+            return int(v)
+        except ValueError:
+            return float(v)
+    return v
+
+
+def math_exact_case(fi, ai, bi):
+    f = ME_FILTERS[fi]
+    a, b = _me_conv(ME_POOL[ai]), _me_conv(ME_POOL[bi])
+    try:
+        out = _ME_T[f].render(a=ME_POOL[ai], b=ME_POOL[bi])
+    except LiquidError as e:
+        out = "ERR:" + type(e).__name__
+    if f == "modulo" and (isinstance(a, float) or isinstance(b, float)):
+        return out, out   # float remainders follow decimal semantics (sign of the dividend): not fixed by the documentation
+    try:
+        if f == "plus":
+            r = a + b
+        elif f == "minus":
+            r = a - b
+        elif f == "times":
+            r = a * b
+        elif f == "modulo":
+            r = a % b
+        elif f == "divided_by":
+            r = a // b if isinstance(a, int) and isinstance(b, int) else a / b
+        elif f == "at_least":
+            r = max(a, b)
+        else:
+            r = min(a, b)
+        exp = str(r)
+    except ZeroDivisionError:
+        exp = "ERR:FilterArgumentError"
+    return out, exp
+
+
+def c25_math_exact_text(fi: int, ai: int, bi: int) -> bool:
+    """
+    pre: 0 <= fi <= 6 and 0 <= ai <= 12 and 0 <= bi <= 12
+    post: _
+    """
+    if excluded("c25_math_exact_text", locals()):
+        return True
+    fi, ai, bi = cint(fi, 0, 6), cint(ai, 0, 12), cint(bi, 0, 12)
+    r = untraced(lambda: math_exact_case(fi, ai, bi))
+    return finish(r[0] == r[1])
+
+
+_DETAIL_MATH_EXACT = lambda fi, ai, bi: {"template": "{{ a | %s: b }}" % ME_FILTERS[fi], "a": repr(ME_POOL[ai]), "b": repr(ME_POOL[bi]),
+                                         "rendered / expected": math_exact_case(fi, ai, bi)}
+
 CONDITIONS = [
     {"fn": "c25_size_str", "quick": 30, "thorough": 60},
     {"fn": "c25_size_sized", "quick": 30, "thorough": 60},
@@ -1552,6 +1613,7 @@ CONDITIONS = [
     {"fn": "c25_modulo", "quick": 40, "thorough": 180},
     {"fn": "c25_numeric_string_input", "quick": 40, "thorough": 120},
     {"fn": "c25_int_string_pool", "quick": 60, "thorough": 120, "sel_only": True},
+    {"fn": "c25_math_exact_text", "quick": 60, "thorough": 120, "sel_only": True},
     {"fn": "c25_numeric_string_arg", "quick": None, "thorough": 120},
     {"fn": "c25_numeric_strings_both", "quick": None, "thorough": 180},
     {"fn": "c25_numeric_strings_mul", "quick": None, "thorough": 240},
@@ -1574,6 +1636,7 @@ def _d_truncate(s, num, end):
 
 DETAIL = {
     "c25_int_string_pool": _DETAIL_INT_STRING,
+    "c25_math_exact_text": _DETAIL_MATH_EXACT,
     "c25_truncate_exact": lambda s, end: _d_truncate(s, len(s), end),
     "c25_truncate_tiny": _d_truncate,
     "c25_truncate_longer": _d_truncate,
